@@ -57,3 +57,91 @@ def run_interleaved(a, b, filename, first_line, last_line, nth=1, timeout=60):
     if state['exc'] is not None:
         raise state['exc']
     return state['res'], rb, interleaved
+
+
+def count_events(a, functions):
+    """Number of line events thread A produces inside the named functions ((filename suffix, function name) pairs)."""
+    n = [0]
+
+    def local(frame, event, arg):
+        if event == 'line':
+            n[0] += 1
+        return local
+
+    def tracer(frame, event, arg):
+        if event == 'call' and _wanted(frame, functions):
+            return local
+        return None
+    t = threading.Thread(target=_traced, args=(a, tracer, {}))
+    t.start()
+    t.join(60)
+    return n[0]
+
+
+def _wanted(frame, functions):
+    co = frame.f_code
+    for suffix, name in functions:
+        if co.co_name == name and co.co_filename.endswith(suffix):
+            return True
+    return False
+
+
+def _traced(fn, tracer, box):
+    sys.settrace(tracer)
+    try:
+        box['res'] = fn()
+    except BaseException as e:      # noqa
+        box['exc'] = e
+    finally:
+        sys.settrace(None)
+        box['done'] = True
+
+
+def run_with_switch(a, b, functions, k, timeout=60, b_timeout=3):
+    """Thread A runs a(); right before its k-th line event inside `functions` it is suspended, b() runs to completion
+    in the calling thread, A resumes.  Returns (result_a, result_b, where) -- where is 'file:line' of the suspended
+    line, or None if A finished before reaching the k-th event (b then ran after A)."""
+    paused, resume = threading.Event(), threading.Event()
+    st = dict(n=0, where=None)
+    box = {}
+
+    def local(frame, event, arg):
+        if event == 'line' and st['where'] is None:
+            st['n'] += 1
+            if st['n'] == k:
+                st['where'] = '%s:%d' % (frame.f_code.co_filename, frame.f_lineno)
+                paused.set()
+                resume.wait(timeout)
+        return local
+
+    def tracer(frame, event, arg):
+        if event == 'call' and _wanted(frame, functions):
+            return local
+        return None
+
+    def run_a():
+        try:
+            _traced(a, tracer, box)
+        finally:
+            paused.set()
+    t = threading.Thread(target=run_a)
+    t.start()
+    paused.wait(timeout)
+    bbox = {}
+
+    def run_b():
+        try:
+            bbox['res'] = b()
+        except BaseException as e:      # noqa
+            bbox['exc'] = e
+    tb = threading.Thread(target=run_b)
+    tb.start()
+    tb.join(b_timeout)          # B blocked on a lock A holds: a legal schedule in which B simply waits for A
+    resume.set()
+    t.join(timeout)
+    tb.join(timeout)
+    if 'exc' in box:
+        raise box['exc']
+    if 'exc' in bbox:
+        raise bbox['exc']
+    return box.get('res'), bbox.get('res'), st['where']
